@@ -285,6 +285,14 @@ def run_special(ctx):
         shx.update_weight()
         toks = str(shx.wght).split()
         expect('WGHT text after update_weight', case, [0.0543, 1.2345], [float(x) for x in toks[1:3]])
+        # the instruction in the file is the one that was updated
+        wl = [l.split() for l in im.write_text(shx).split('\n') if l.upper().startswith('WGHT')]
+        expect('WGHT instruction in the written file after update_weight (the first WGHT line)', case, [0.0543, 1.2345], [float(x) for x in wl[0][1:3]] if wl else None)
+        try:
+            pos_ok = shx._reslist[shx.wght.index] is shx.wght
+        except Exception as ex:
+            pos_ok = 'raised %s' % type(ex).__name__
+        expect('Shelxfile.wght is the object the file holds after update_weight', case, True, pos_ok)
         # ... and setting the instruction back to the text it was read from must take effect again
         shx.wght.set('WGHT 0.1 0.2')
         toks = str(shx.wght).split()
@@ -295,6 +303,20 @@ def run_special(ctx):
             setattr(shx.wght, nm, v)
         shx.wght.set('WGHT 0.1 0.2')
         expect('WGHT attributes after assignment and set() to the original text', case, [0.1, 0.2], [shx.wght.a, shx.wght.b])
+    # a second DEFS that leaves parameters out: they take the documented defaults, not the values of the first DEFS
+    lines = HEAD + ['DEFS 0.03 0.2 0.02 0.05 0.9', 'SADI C1 O1 N1 C2', 'DEFS 0.011', 'FLAT C1 O1 N1 C2', 'DELU C1 O1', 'SIMU C1 O1'] + ATOMS + TAIL
+    text = '\n'.join(lines) + '\n'
+    status, inner, shx = im.read_text(text, 'quiet')
+    case = {'instruction': 'DEFS 0.03 0.2 0.02 0.05 0.9 ... DEFS 0.011', 'text': text}
+    d2 = find_object(shx, len(HEAD) + 2)
+    if d2 is None:
+        common.add_violation(ctx, 'DEFS is not turned into an object', case, 'object', None)
+    else:
+        expect('second DEFS: omitted parameters are the documented defaults', case, [0.011, 0.1, 0.01, 0.04, 1], [d2.sd, d2.sf, d2.su, d2.ss, d2.maxsof])
+        rs = list(shx.restraints)
+        got_defaults = {type(r).__name__: getattr(r, 's', getattr(r, 's1', None)) for r in rs}
+        expect('restraints after the second DEFS take its defaults (FLAT s = sf = 0.1, DELU s1 = su = 0.01, SIMU s = ss = 0.04), the SADI before it those of the first (0.03)',
+               case, [0.03, 0.1, 0.01, 0.04], [got_defaults.get('SADI'), got_defaults.get('FLAT'), got_defaults.get('DELU'), got_defaults.get('SIMU')])
     # restraints: atoms, residue class, resolved residue numbers
     pre = ['RESI 1 TOL', 'C5 1 0.5 0.5 0.5 11.0 0.04', 'RESI 2 TOL', 'C5 1 0.6 0.5 0.5 11.0 0.04', 'RESI 0']
     for line, atoms, cls, nums in (('SADI_TOL 0.03 C5 C6', ['C5', 'C6'], 'TOL', [1, 2]), ('SADI_2 C5 C6', ['C5', 'C6'], '', [2]),
